@@ -137,6 +137,89 @@ def rule_decoder_framing(ctx, cfg='prod-all', table=FRAMING):
                      fact=f['inputs'], expected='table row')
 
 
+PREFIX_TAKERS = ('<impl [T]>::first_chunk', '<impl [T]>::last_chunk', '<impl [T]>::split_first_chunk', '<impl [T]>::split_last_chunk', '<impl [T]>::get',
+                 '<impl [T]>::split_at', '<impl [T]>::split_at_checked', '<impl [T]>::first_chunk_mut', 'std::ops::Index::index')
+EXACT_CONVERSIONS = ('std::convert::TryInto::try_into', 'std::convert::TryFrom::try_from')
+
+
+def rule_array_inputs_exact(ctx, cfg='prod-all', scope=('bbsplus::',)):
+    """A function that takes its octets as `&[u8; N]` frames its input by the type - but only if the caller turns the octet string it was given
+    into that array by a conversion that fails on any other length.  `octets.first_chunk()` (or `&octets[..N]`, `get(..N)`) hands over the first N
+    octets of a longer string: trailing octets are accepted.  Per call of a local function with an array parameter whose argument is cut out of
+    a slice: the conversion is an exact one (`try_into` / `try_from`), or the length of the slice is proven equal to N where the call is made."""
+    from zone import parse_array_len
+    prog, eng, za = ctx.prog(cfg), ctx.eng(cfg), ctx.zone(cfg)
+    n = 0
+    for p, b in sorted(prog.bodies.items()):
+        if b.from_expansion or not p.startswith(scope) or '::tests::' in p:
+            continue
+        zf = None
+        cnt = {}
+        for bi, t in b.calls():
+            tgt = local_target(eng, t)
+            if tgt is None or tgt not in prog.bodies:
+                continue
+            cb = prog.bodies[tgt]
+            for k, a in enumerate(t['args']):
+                if k + 1 > cb.arg_count or a['k'] not in ('copy', 'move'):
+                    continue
+                ty = cb.local_ty(k + 1).replace('&mut ', '').lstrip('&').strip()
+                N = parse_array_len(ty) if ty.startswith('[u8;') else None
+                if N is None or not str(N).isdigit():
+                    continue
+                if zf is None:
+                    za.summary(p)
+                    zf = za.zf(p)
+                # where the array comes from
+                l = a['pl']['l']
+                oc = None
+                for _ in range(8):
+                    o = zf._origin_call(l)
+                    if o is None:
+                        # the payload of a `?` / match: continue at the Option / Result it was taken out of
+                        d = zf.single_def(l)
+                        if d and d[0] == 'assign' and d[2]['rv']['k'] in ('use', 'ref') and not d[2]['dst'].get('p'):
+                            src = d[2]['rv'].get('pl') or d[2]['rv'].get('op', {}).get('pl')
+                            if src is not None and src['l'] != l and all(q['k'] in ('downcast', 'field', 'deref') for q in src.get('p', [])):
+                                l = src['l']
+                                continue
+                        break
+                    oc = o
+                    cal = o[1].get('callee') or ''
+                    if cal in ('std::option::Option::<T>::unwrap', 'std::option::Option::<T>::expect', 'std::result::Result::<T, E>::unwrap',
+                               'std::result::Result::<T, E>::expect') and o[1]['args'] and o[1]['args'][0]['k'] in ('copy', 'move'):
+                        l = o[1]['args'][0]['pl']['l']
+                        continue
+                    break
+                if oc is None:
+                    continue
+                cal = oc[1].get('callee') or ''
+                if cal in EXACT_CONVERSIONS:
+                    src = oc[1]['args'][0] if oc[1]['args'] else None
+                    sty = b.local_ty(src['pl']['l']).replace('&mut ', '').lstrip('&').strip() if src and src['k'] in ('copy', 'move') else ''
+                    if not sty.startswith('[u8]') and not sty.startswith('std::vec::Vec<u8'):
+                        continue
+                    nm = cb.path.split('::')[-2] + '::' + cb.path.split('::')[-1]
+                    cnt[nm] = cnt.get(nm, 0) + 1
+                    n += 1
+                    yield Ob('RF-E', '%s#array-input:%s[%d]' % (p, nm, cnt[nm]), True, 'the octet string is turned into the array by a conversion that fails on any other length',
+                             '%s L%s' % (b.file(), t.get('line')), fact={'conversion': cal.split('::')[-1], 'N': N}, expected='exact')
+                    continue
+                if not cal.endswith(PREFIX_TAKERS) or not oc[1]['args'] or oc[1]['args'][0]['k'] not in ('copy', 'move'):
+                    continue
+                ln = zf.len_of_place(oc[1]['args'][0]['pl'])
+                want = (None, int(N))
+                ok = ln is not None and zf.prove_le(ln, want, bi) and zf.prove_le(want, ln, bi)
+                nm = cb.path.split('::')[-2] + '::' + cb.path.split('::')[-1]
+                cnt[nm] = cnt.get(nm, 0) + 1
+                n += 1
+                yield Ob('RF-E', '%s#array-input:%s[%d]' % (p, nm, cnt[nm]), ok,
+                         'the array handed to a function that takes `&[u8; N]` is the whole octet string (its length is N there), not a piece of a longer one',
+                         '%s L%s' % (b.file(), t.get('line')), fact={'taken_by': cal.split('::')[-1], 'N': N, 'length_of_the_source': tfmt(ln) if ln is not None else None},
+                         expected='length == N')
+    yield Ob('RF-E', 'crate#array-inputs', n >= 2, 'array-typed decoder inputs cut out of octet strings examined', '', fact=n, expected='>= 2', nontrivial=False)
+
+
 # ---------------------------------------------------------------------------------- RF-L limit guards
 LIMITS = [
     # fn, description, term-symbol (in the function's own symbols), relation established on the continuing path, constant
